@@ -15,6 +15,7 @@ import (
 	"github.com/internetarchive/Zeno/internal/verif/lib/world"
 	"github.com/internetarchive/Zeno/internal/verif/vrt/hkit"
 	"github.com/internetarchive/Zeno/internal/verif/vrt/vsched"
+	"github.com/internetarchive/Zeno/pkg/models"
 )
 
 const propID = "C03"
@@ -104,6 +105,20 @@ func scenario(s *scen) *vsched.Scenario {
 		}
 		if n := x.LiveThreads(); n != 0 {
 			return fmt.Errorf("threads-left: stop returned but %d threads are still alive: %s", n, strings.Join(x.Parked(), "; "))
+		}
+		// a seed reported finished around the stop must still have its whole tree done (it is deleted
+		// from the queue: anything pending would be lost for good)
+		for _, m := range w.Finished {
+			var pending []string
+			m.Item.Traverse(func(n *models.Item) {
+				switch n.GetStatus() {
+				case models.ItemFresh, models.ItemPreProcessed, models.ItemArchived:
+					pending = append(pending, n.GetURL().Raw+"="+n.GetStatus().String())
+				}
+			})
+			if len(pending) > 0 {
+				return fmt.Errorf("finished-with-pending-work: %s was reported finished during the stop while %v still await work", m.ID, pending)
+			}
 		}
 		if a, b, c := stats.VerifRoutines(); a != 0 || b != 0 || c != 0 {
 			return fmt.Errorf("gauges-not-zero: worker gauges after stop: preprocessor=%d archiver=%d postprocessor=%d", a, b, c)
